@@ -352,6 +352,29 @@ func (p *Program) encodeTop(fn *ssa.Function) *funcResult {
 		facts = append(facts, fr.wfFacts(tv, fr.st), not(eq(c, "pnil")))
 	}
 	fr.assumeHere(and(facts...), "params")
+	// ghost parameters (universally quantified) and ghost definitions at entry
+	if fr.contract != nil {
+		for _, gp := range fr.contract.GhostParams {
+			ty, err := p.u.tyOfTypeExpr(gp.Ty, p.cs)
+			if err != nil {
+				vc.addErr("%s: ghostparam %s: %v", name, gp.Name, err)
+				continue
+			}
+			c := "g_" + sanitize(gp.Name)
+			vc.declare(c, ty.Sort())
+			fr.specVars[gp.Name] = TV{c, ty}
+		}
+		for _, gl := range fr.contract.GhostLets {
+			tv, err := fr.specEnv(fr.st).tr(gl.E)
+			if err != nil {
+				vc.addErr("%s: ghostlet %s: %v", name, gl.Name, err)
+				continue
+			}
+			c := vc.fresh("gl_"+gl.Name, tv.Ty.Sort())
+			vc.assume(eq(c, tv.T))
+			fr.specVars[gl.Name] = TV{c, tv.Ty}
+		}
+	}
 	// preconditions
 	if fr.contract != nil {
 		env := fr.specEnv(fr.st)
@@ -415,6 +438,7 @@ func (e *Enc) finishRoots(fr *Frame) {
 			}
 		}
 	}
+	pre = append(pre, vc.unfoldInstances()...)
 	vc.rootAssum = pre
 }
 
